@@ -1,11 +1,12 @@
 import QeepProofs.Graph
 import QeepProofs.Heap
+import QeepProofs.Dag
 /-!
 # C01 — back-propagation yields the total derivative on any operation DAG
 
 `backprop` (model of `BackPropagate`, `Qeep.Grad`) = depth-first order + one pass over the back edges.
-The theorems below hold for every heap whose back edges point to older tensors (`HeapDag`, true of every heap
-built through the public API: an operation's operands exist before its result) — every fan-out and
+The theorems below hold for every heap whose back edges point to older tensors (`HeapDag`; proved to hold of every heap
+built through the public API, `reachable_is_dag`: an operation's operands exist before its result) — every fan-out and
 reconvergence pattern, every depth, every tracked/untracked assignment, every root.
 
 * `backwardOrder_spec`  — the order contains the root, is closed under tracked back edges, has no duplicates and
@@ -29,8 +30,8 @@ namespace C01
 
 variable {α : Type} [Scalar α]
 
-/-- back edges point to older tensors -/
-def HeapDag (H : Heap α) : Prop := ∀ n, ∀ e ∈ (H.ctx n).edges, e.target < n
+-- `HeapDag H` (back edges point to older tensors) is defined in `QeepProofs.Dag`, where it is shown to be an
+-- invariant of every heap the public API can build (`reach_dag`).
 
 theorem dag_succs (H : Heap α) (h : HeapDag H) : DagS (succs H) := by
   intro n c hc
@@ -136,6 +137,24 @@ theorem backprop_adjoint (bm : BMode) (H : Heap α) (root : Nat) (hdag : HeapDag
       exact writeBack_grad _ _ n (by rw [markDirty_size]; exact hn)
     · simpa [bpPairs] using hC
 
+/-- **Every heap the public API can build has the shape the theorems need**: whatever sequence of constructors,
+    operations (on existing tensors), `Gradient()`, `BackPropagate()` and `ResetGradContext()` calls produced it. -/
+theorem reachable_is_dag {bm : BMode} {H : Heap α} (h : Reach bm H) : HeapDag H := reach_dag h
+
+/-- the adjoint equations with the structural hypothesis discharged: any reachable heap, any tracked root -/
+theorem backprop_adjoint_reachable (bm : BMode) (H : Heap α) (root : Nat) (hr : Reach bm H) (htr : H.tracked root = true)
+    (hok : (backprop bm H root).status = .ok ()) :
+    ∃ (seedG final : Nat → Option (Tensor α)),
+      accumG (vArith .add) (fun n => H.grad n) root (vPow (H.val root) Scalar.zero) = .ok seedG ∧
+      (∀ n, n < H.size → (backprop bm H root).heap.grad n = final n) ∧
+      (∀ n, Sums (vArith .add) (seedG n)
+          (contrib (fun r gy => evalRule bm (markDirty H (backwardOrder H root)) gy r) H.tracked final (bpPairs H root) n)
+          (final n)) ∧
+      (∀ p ∈ bpPairs H root, H.tracked p.2.1 = true →
+          ∃ gy g, final p.1 = some gy ∧ evalRule bm (markDirty H (backwardOrder H root)) gy p.2.2 = .ok g) ∧
+      (backprop bm H root).calls = ((bpPairs H root).filter (fun p => H.tracked p.2.1)).length :=
+  backprop_adjoint bm H root (reach_dag hr) htr hok
+
 /-- **Rule applications are linear in the graph**: at most one per back edge of a visited tensor, whatever the
     outcome of the walk (a failing rule stops it early). -/
 theorem backprop_calls_le (bm : BMode) (H : Heap α) (root : Nat) :
@@ -184,6 +203,17 @@ example : HeapDag H0 ∧ H0.tracked 1 = true := by
   | 0 => simp [H0, Heap.ctx] at he
   | 1 => simp [H0, Heap.ctx] at he; subst he; simp
   | n + 2 => simp [H0, Heap.ctx] at he
+
+/-- x = leaf 3, y = Scale(x, 2), built by the model's own operations -/
+def Hr : Heap Int :=
+  match (hLeaf (⟨[], [3]⟩ : Tensor Int) true >>= fun x => hScale x 2) #[] with
+  | .ok (_, H) => H
+  | _ => #[]
+
+/-- non-vacuity of `Reach`: that history is reachable, its result is a tracked root, and the walk succeeds -/
+example : Reach .sum Hr ∧ Hr.size = 2 ∧ Hr.tracked 1 = true ∧ (backprop .sum Hr 1).status = .ok () := by
+  refine ⟨?_, by decide, by decide, by decide⟩
+  exact Reach.scale (x := 0) (a := 2) (r := 1) (Reach.leaf (v := ⟨[], [3]⟩) (b := true) (r := 0) Reach.empty rfl) (by decide) rfl
 
 end C01
 end Qeep
